@@ -442,6 +442,8 @@ func runC09(c *Ctx) {
 
 	c09NoSharedWalkerState(c, "C09-D8")
 	reflectMapStoreRule(c, "C09-D9")
+	c.Rule("C09-D12", "a decoded header owns its storage (shared with C03-D8): pointer fields of the PacketHeader built in parser/json point to a variable of that call, nil or the caller's pointer — not into the parser", 1)
+	headerOwnsItsStorage(c, "C09-D12")
 	c09MapWalkers(c)
 	c09PlaceholderSlots(c)
 
